@@ -5,7 +5,8 @@ snapshots the directory: that snapshot is what a kill at that point leaves (page
 must hold its old or its final bytes in every snapshot and all leftovers must be hidden files next to it.
 The same traces are replayed through spec/FSTrace.tla (Atomic at the end over the whole content history incl. torn
 writes, HiddenOnlyNow in every state)."""
-import vlib, fsfamily
+import hashlib, json, os, shutil, signal
+import vlib, fsfamily, cli
 
 META = {
     "level": "fault_enumeration",
@@ -19,7 +20,98 @@ META = {
 }
 
 
+KILL_CMDS = ("optimize", "rotate", "trim", "watermark add", "encrypt", "merge", "bookmarks import", "keywords add")
+
+
+def kill_confirmation(ctx):
+    """The real CLI binary (built with the instrumented os package) is killed with SIGKILL immediately before its k-th
+    file-system call, for every k, while it replaces an existing output / works in place. What the dead process leaves is
+    judged on real bytes: the destination holds its old bytes or a complete document equal to the reference result, and
+    everything else in its directory is a hidden file. This confirms the snapshot model of the crash-point enumeration
+    (a snapshot before call k = what a kill at that point leaves) on real process deaths."""
+    binp = cli.build()
+    eq = vlib.build_bin("pdfeq")
+    entries = [e for e in cli.CATALOG if e["kind"] == "file" and e["id"] in KILL_CMDS]
+    if not ctx.quick:
+        entries = [e for e in cli.CATALOG if e["kind"] == "file"]
+    d = vlib.scratch_dir()
+    kills = confirmed = 0
+    cmds = []
+    try:
+        for e in entries:
+            for mode in (("existing", "inplace") if e.get("inplace") else ("existing",)):
+                def setup():
+                    sb = cli.Sandbox(base=d)
+                    inp = cli.prepare_input(binp, sb, e)
+                    out = sb.p("out/out.pdf")
+                    if mode == "existing":
+                        shutil.copy(cli.INPUTS["rot"], out)
+                        dest = out
+                    else:
+                        out, dest = None, inp
+                    return sb, inp, out, dest
+                # reference run, recording the number of calls
+                sb, inp, out, dest = setup()
+                try:
+                    tr = sb.p("tmp/trace.ndjson")
+                    env = {"VERIF_OS_ROOT": sb.root, "VERIF_OS_TRACE": tr}
+                    old = open(dest, "rb").read()
+                    p = cli.run(binp, sb, cli.fill(e["argv"], sb, inp, out, sb.p("out")), extra_env=env, force=(mode == "existing"))
+                    if p.returncode != 0:
+                        continue
+                    n = sum(1 for _ in open(tr)) if os.path.exists(tr) else 0
+                    ref = sb.p("tmp/ref.pdf")
+                    shutil.copy(dest, ref)
+                    refbytes = open(ref, "rb").read()
+                    if n == 0 or refbytes == old:
+                        continue
+                    cmds.append("%s/%s (%d calls)" % (e["id"], mode, n))
+                    ks = range(1, n + 1)
+                    if ctx.quick and n > 24:
+                        import random
+                        rng = random.Random(ctx.seed)
+                        ks = sorted(set(rng.sample(range(1, n + 1), 20)) | {n, n - 1, n - 2, n - 3})
+                    for k in ks:
+                        sb2, inp2, out2, dest2 = setup()
+                        try:
+                            env2 = {"VERIF_OS_ROOT": sb2.root, "VERIF_OS_FAULT_AT": str(k), "VERIF_OS_FAULT_KIND": "kill"}
+                            old2 = open(dest2, "rb").read()
+                            before = set(os.listdir(os.path.dirname(dest2)))
+                            p2 = cli.run(binp, sb2, cli.fill(e["argv"], sb2, inp2, out2, sb2.p("out")), extra_env=env2, force=(mode == "existing"))
+                            kills += 1
+                            if p2.returncode != -signal.SIGKILL:
+                                continue    # the k-th call of this run was never reached (output is not byte-deterministic): not a crash point
+                            confirmed += 1
+                            key = "kill|%s|%s" % (e["id"], mode)
+                            if not os.path.exists(dest2):
+                                ctx.report(key + "|dest ABSENT", "%s [%s]: killed before call %d of %d: the destination is gone" % (e["id"], mode, k, n), dict(cmd=e["id"], mode=mode, k=k))
+                                continue
+                            now = open(dest2, "rb").read()
+                            if now != old2:
+                                q = vlib.sh([eq, ref, dest2, "", "o"], check=False)
+                                ok = False
+                                try:
+                                    ok = json.loads(q.stdout.strip().splitlines()[-1])["equal"]
+                                except Exception:
+                                    pass
+                                if not ok:
+                                    ctx.report(key + "|dest OTHER", "%s [%s]: killed before call %d of %d: the destination holds neither its old bytes nor the complete result (%d bytes, sha %s)"
+                                               % (e["id"], mode, k, n, len(now), hashlib.sha256(now).hexdigest()[:12]), dict(cmd=e["id"], mode=mode, k=k))
+                                    continue
+                            extra = [x for x in set(os.listdir(os.path.dirname(dest2))) - before if not x.startswith(".")]
+                            if extra:
+                                ctx.report(key + "|visible leftover", "%s [%s]: killed before call %d of %d: visible leftovers %s" % (e["id"], mode, k, n, extra), dict(cmd=e["id"], mode=mode, k=k))
+                        finally:
+                            sb2.close()
+                finally:
+                    sb.close()
+    finally:
+        shutil.rmtree(d, ignore_errors=True)
+    return dict(kill_runs=kills, killed_at_the_chosen_call=confirmed, commands=cmds)
+
+
 def run(ctx):
+    kc = kill_confirmation(ctx)
     rows, summ, st, sample = fsfamily.run_mode(ctx, "c02")
     # font / certificate publication (harness/cmd/txn): crash points of the batch installers
     rows2, summ2, st2, sample2 = fsfamily.run_mode(ctx, "c02", binary="txn")
@@ -33,9 +125,9 @@ def run(ctx):
            rule="one evaluation = one crash point = the real directory state before the k-th file-system call of a replacing operation; "
                 "all (operation, configuration, k) are distinct; each is classified OLD/NEW/ABSENT/OTHER against real bytes",
            states=st["states"], transitions=st["transitions"], traces_validated_against_impl=st["traces"],
-           runs=len(rows), operations=summ["ops"], skipped=summ.get("skipped", []), monitor_binding_drift=st["drift"], staged_protocol_inclusion=st.get("staged"), exhaustive=True)
+           runs=len(rows), operations=summ["ops"], skipped=summ.get("skipped", []), monitor_binding_drift=st["drift"], staged_protocol_inclusion=st.get("staged"), real_kill_confirmation=kc, exhaustive=True)
     for r in rows[:3]:
         ev.sample({k: r[k] for k in ("op", "cfg", "n", "verdict")})
     ev.sample(sample)
-    ev.assume("kill -9 model: everything written through a returned write(2) survives, nothing else is lost",
+    ev.assume("kill -9 model: everything written through a returned write(2) survives, nothing else is lost (confirmed on real SIGKILLs of the CLI binary for the commands listed under real_kill_confirmation)",
               "operations needing user fonts are skipped (configuration directory disabled)")
